@@ -67,7 +67,7 @@ func (c03) Run(c *Case, st *Stats) []Violation {
 		}
 		// canonical schedule: FIFO, unbuffered inputs
 		d := *c
-		d.Cap, d.Policy, d.Record, d.Late, d.Nbr = 0, simrt.PolicySpec{Name: "fifo"}, false, false, false
+		d.Cap, d.Policy, d.Record, d.Late, d.Nbr, d.Early = 0, simrt.PolicySpec{Name: "fifo"}, false, false, false, false
 		r0, _ := runInd(&d, d.pipeOpts())
 		st.noteSim(&r0.SimOut)
 		if ok0, _, _ := termination(&r0.SimOut, r0.Closed, r0.ProdDone, r0.Built); ok0 && r0.Err == nil {
@@ -115,7 +115,7 @@ func (c03) Run(c *Case, st *Stats) []Violation {
 					return vs
 				}
 				d := *c
-				d.Cap, d.Policy, d.Record, d.Late, d.Nbr = 0, simrt.PolicySpec{Name: "fifo"}, false, false, false
+				d.Cap, d.Policy, d.Record, d.Late, d.Nbr, d.Early = 0, simrt.PolicySpec{Name: "fifo"}, false, false, false, false
 				r1 := runStratOutcome(&d, d.pipeOpts())
 				st.noteSim(&r1.SimOut)
 				if ok1, _, _ := termination(&r1.SimOut, r1.Closed, r1.ProdDone, r1.Built); ok1 && r1.Err == nil {
@@ -127,7 +127,7 @@ func (c03) Run(c *Case, st *Stats) []Violation {
 			}
 		}
 		d := *c
-		d.Cap, d.Policy, d.Record, d.Late, d.Nbr = 0, simrt.PolicySpec{Name: "fifo"}, false, false, false
+		d.Cap, d.Policy, d.Record, d.Late, d.Nbr, d.Early = 0, simrt.PolicySpec{Name: "fifo"}, false, false, false, false
 		r0 := runStrat(&d, d.pipeOpts())
 		st.noteSim(&r0.SimOut)
 		if ok0, _, _ := termination(&r0.SimOut, r0.Closed, r0.ProdDone, r0.Built); ok0 && r0.Err == nil {
@@ -156,7 +156,6 @@ func sameActions(a, b [][]strategy.Action) (bool, string) {
 	}
 	return true, ""
 }
-
 
 // runStratOutcome runs the strategy of the case through strategy.ComputeWithOutcome; output 0 are
 // the actions (as numbers, forwarded by a task of the harness), output 1 the outcomes.
